@@ -17,7 +17,7 @@ RULE = ("molecule sets over ids {1,2,3,7,10} with 0-3 labels each (coincident la
         "and no filter) x both reader entry points; two-call sequences on ONE reader over two named files on disk (same or different file, "
         "every pair of id filters, both entry-point orders); trim: every label list (<=5 labels) over a lattice with one-decimal offsets; "
         "non-trivial = rows not in canonical order, or a filter is given, or a molecule has no label")
-ASSUMPTIONS = ["independent expectation computed from the molecule description, not by parsing with COMA code"]
+ASSUMPTIONS = ["three file layouts: plain, annotation column with blanks + two channels, instrument-style header with a TAB after #h and no final newline", "independent expectation computed from the molecule description, not by parsing with COMA code"]
 
 WORLDS = [
     [(3, 100.7, [10.5, 20.1]), (1, 50.0, [])],
@@ -37,6 +37,12 @@ WORLDS = [
 NOTE_HEADER = ("# CMAP File Version:\t0.1\n# Label Channels:\t2\n"
                "#h CMapId\tContigLength\tNumSites\tSiteID\tNote\tLabelChannel\tPosition\tStdDev\tCoverage\tOccurrence\n"
                "#f int\tfloat\tint\tint\tstring\tint\tfloat\tfloat\tfloat\tfloat\n")
+
+
+LONG_HEADER = ("# CMAP File Version:\t0.2\n# Label Channels:\t1\n# Nickase Recognition Site 1:\tCTTAAG;green_01\n# Number of Consensus Maps:\t3\n"
+               "# Values corresponding to intervals (StdDev, HapDelta) refer to the interval between current site and next site\n"
+               "#h\tCMapId\tContigLength\tNumSites\tSiteID\tLabelChannel\tPosition\tStdDev\tCoverage\tOccurrence\tChimQuality\n"
+               "#f\tint\tfloat\tint\tint\tint\tfloat\tfloat\tfloat\tfloat\tfloat\n")
 
 
 def split(label):
@@ -65,6 +71,11 @@ def check_read(mols, order, ids, entry, acc, layout=1):
     if layout == 1:
         rows = cmaptext.rows(plain, extra_column=True)
         txt = (cmaptext.HEADER % ('\tExtra', '\tfloat')) + ''.join(rows[i] for i in order)
+    elif layout == 3:
+        # layout 3: the header of an instrument-written file (five comment lines, '#h' followed by a TAB, one more column) and no
+        # newline after the last row
+        rows = cmaptext.rows(plain, extra_column=True)
+        txt = (LONG_HEADER + ''.join(rows[i] for i in order)).rstrip('\n')
     else:
         rows = note_rows(mols)
         txt = NOTE_HEADER + ''.join(rows[i] for i in order)
@@ -239,10 +250,10 @@ class Reader(core.Layer):
                         check_trim([round(x + off, 1) for x in c], 99, acc)
             return
         mols = WORLDS[wi]
-        for order in perms:
+        for oi, order in enumerate(perms):
             for ids in id_filters(mols):
                 for entry in ('queries', 'references'):
-                    for layout in (1, 2):
+                    for layout in (1, 2 + oi % 2):       # layout 1 for every row order, layouts 2 and 3 alternate
                         acc.seq += 1
                         check_read(mols, order, ids, entry, acc, layout)
 
